@@ -49,6 +49,7 @@ Rule ==
                                 /\ Known(cls[Ev.o], e1[4])
                                 /\ LET e2 == Lookup(cls[Ev.o], e1[4]) IN e2[3] = Ev.outs[2] /\ e2[4] = Ev.post
     [] Ev.op \in {"clone", "rebuild"} -> Ev.res = "Ok"
+    [] Ev.op = "mutate"   -> Ev.res \in {"Ok", "NotMutable"}
     [] Ev.op = "roundtrip" -> Ev.res \in {"Ok", "NoSerdeImpl"}               \* (de)serialisation never fails on a valid value
     [] Ev.op = "eq"       -> Ev.res = -1 \/ (Ev.res = 1) = (cls[Ev.o] = cls[Ev.a])
     [] Ev.op = "dbg"      -> \A d \in dmemo : d[1] = cls[Ev.o] => d[2] = Ev.h
@@ -63,6 +64,9 @@ Effect ==
                              /\ UNCHANGED <<cls, dmemo, bad>>
     [] Ev.op = "iter"     -> st' = [st EXCEPT ![Ev.r] = Ev.post] /\ UNCHANGED <<cls, memo, dmemo, bad>>
     [] Ev.op \in {"clone", "rebuild"} -> cls' = [cls EXCEPT ![Ev.o] = cls[Ev.a]] /\ UNCHANGED <<st, memo, dmemo, bad>>
+    \* class ids of mutated values: id + 100000 (idempotent)
+    [] Ev.op = "mutate"   -> /\ cls' = IF Ev.res = "Ok" /\ cls[Ev.o] < 100000 THEN [cls EXCEPT ![Ev.o] = cls[Ev.o] + 100000] ELSE cls
+                             /\ UNCHANGED <<st, memo, dmemo, bad>>
     [] Ev.op = "roundtrip" -> /\ cls' = IF Ev.res = "Ok" THEN [cls EXCEPT ![Ev.o] = cls[Ev.a]] ELSE cls
                               /\ UNCHANGED <<st, memo, dmemo, bad>>
     [] Ev.op = "dbg"      -> dmemo' = dmemo \cup {<<cls[Ev.o], Ev.h>>} /\ UNCHANGED <<cls, st, memo, bad>>
